@@ -63,6 +63,10 @@ class Ctx:
             known = set(_reference_helpers().get(rel, []))
             fresh = {q.split(".")[-1] for q, _ in self.repo.functions(rel)
                      if q.split(".")[-1].startswith("_") and not q.split(".")[-1].startswith("__") and q not in known}
+            # ... and nested functions of the anchored function that the reference tree does not have
+            known_nested = set(_reference_helpers().get("__nested__", {}).get(rel, []))
+            fresh |= {q.split(".")[-1] for q, _ in self.repo.functions(rel)
+                      if q.startswith(qual + ".") and "." not in q[len(qual) + 1:] and q not in known_nested}
             if not fresh:
                 return func
             inline = fresh
